@@ -915,15 +915,34 @@ fn gen_history(tier: &str, index: usize) -> Store {
         let mut seen = std::collections::BTreeSet::new();
         recs.retain(|r| seen.insert((r.syls.clone(), r.phrase.clone())));
     }
+    // homographs: the same written phrase under a second reading (行 ㄒㄧㄥˊ / ㄏㄤˊ); relearning one
+    // reading in a later session must leave the other one alone (seeded change C19-B)
+    let mut homographs: Vec<usize> = vec![];
+    if !recs.is_empty() && rng.chance(1, 2) {
+        for _ in 0..(1 + rng.below(3)) {
+            let i = rng.below(recs.len() as u64) as usize;
+            if recs[i].dead() {
+                continue;
+            }
+            let mut twin = vec![recs[i].clone()];
+            composable_only(&mut twin, &mut rng);
+            if !recs.iter().any(|r| r.syls == twin[0].syls && r.phrase == twin[0].phrase) {
+                homographs.push(i);
+                homographs.push(recs.len());
+                recs.push(twin.pop().unwrap());
+            }
+        }
+    }
     let lifetime = gen_lifetime(&mut rng);
-    let sessions = rng.range(1, 3) as usize;
+    let sessions = (rng.range(1, 3) as usize).max(if homographs.is_empty() { 1 } else { 2 });
     let mut learn = vec![];
     for _ in 0..sessions {
         let mut l = vec![];
-        for _ in 0..rng.below(4) {
-            if !recs.is_empty() && rng.chance(1, 3) && !via_capi {
+        for _ in 0..(rng.below(4) + (!homographs.is_empty()) as u64) {
+            if !recs.is_empty() && (rng.chance(1, 3) || !homographs.is_empty() && rng.chance(1, 2)) && !via_capi {
                 // relearn a migrated phrase with a higher frequency
-                let r = &recs[rng.below(recs.len() as u64) as usize];
+                let pick = if !homographs.is_empty() && rng.chance(2, 3) { homographs[rng.below(homographs.len() as u64) as usize] } else { rng.below(recs.len() as u64) as usize };
+                let r = &recs[pick];
                 if !r.dead() {
                     l.push((r.syls.clone(), r.phrase.clone(), (r.user as u32).saturating_add(1 + rng.below(50) as u32)));
                     continue;
